@@ -5,6 +5,7 @@ import (
 	"fmt"
 	"math"
 	"runtime"
+	"runtime/debug"
 	"sync"
 
 	"github.com/dgryski/go-metro"
@@ -106,6 +107,7 @@ func suiteBloom(c *Ctx) {
 	for i := 0; i < 6; i++ {
 		bloomCase(c, bloomCfg{kind: "withbitset", redis: false, words: 1 + i%3, numHashes: uint(1 + 2*i)}, i)
 	}
+	bloomHuge(c, []string{"C01"})
 	bloomConcurrent(c)
 	// small-scope exhaustive: all histories of length <= L over 3 elements for sizes 1..6
 	if c.thorough() {
@@ -235,10 +237,14 @@ func bloomCase(c *Ctx, cfg bloomCfg, caseNo int) {
 			}
 			how := "Import"
 			var lerr error
+			if mayAttach && len(handles) < 2 {
+				attach()
+			}
+			prim := handles[len(handles)-1] // Redis: a handle other than the one that loads the image
 			res := safely(func() {
 				if jn >= 0 {
-					f.Insert(pool[jn])
-					f.Lookup(pool[jn])
+					prim.Insert(pool[jn])
+					prim.Lookup(pool[jn])
 				}
 				if snapImg != nil && c.rng.Intn(2) == 0 {
 					how = "ReadFrom"
@@ -252,19 +258,24 @@ func bloomCase(c *Ctx, cfg bloomCfg, caseNo int) {
 				c.fail([]string{"C10", "C11"}, "bloom-reload-fails", fmt.Sprintf("%s of an earlier image of the filter into the filter itself failed: %v %v", how, res.panicVal, lerr), cfg.String())
 				return
 			}
-			handles = []*gostatix.BloomFilter{f}
-			mayAttach = false
+			if !cfg.redis {
+				handles = []*gostatix.BloomFilter{f}
+			}
+			// Redis: the image went back under the same key with the same dimensions, so every
+			// attached handle still describes the filter - and must see what is there now
 			inserted = map[int]bool{}
 			for k := range snapInserted {
 				inserted[k] = true
 			}
 			hist = append(hist, "rollback")
 			if jn >= 0 {
-				if f.Lookup(pool[jn]) && !eqU64sub(probes[jn], f, cfg.redis) {
-					c.fail([]string{"C01", "C10", "C11"}, "bloom-rollback-remembers", fmt.Sprintf("element %x, inserted only after the remembered state was taken, is reported present after the roll-back although not all of its bits are set", pool[jn]), cfg.String())
-					return
+				for hi, hq := range handles {
+					if hq.Lookup(pool[jn]) && !eqU64sub(probes[jn], f, cfg.redis) {
+						c.fail([]string{"C01", "C09", "C10", "C11"}, "bloom-rollback-remembers", fmt.Sprintf("element %x, inserted only after the remembered state was taken, is reported present by handle %d of %d after the roll-back although not all of its bits are set", pool[jn], hi, len(handles)), cfg.String())
+						return
+					}
 				}
-				f.Insert(pool[jn])
+				prim.Insert(pool[jn])
 				inserted[jn] = true
 				hist = append(hist, fmt.Sprintf("I%d", jn))
 			}
@@ -339,6 +350,54 @@ func bloomCase(c *Ctx, cfg bloomCfg, caseNo int) {
 		c.nontrivial(fmt.Sprintf("%s|%v", cfg, hist))
 	}
 	c.sample(map[string]interface{}{"config": cfg.String(), "size": size, "numHashes": k, "history": hist})
+}
+
+// bloomHuge: an in-memory filter of a little more than 2^32 bits (512 MiB of untouched zero pages;
+// a few hundred elements touch a few thousand of them).  Oracle only - nothing of this size is
+// exported: every inserted element is found, and of as many never-inserted ones none is (at this
+// load the false-positive probability is below 1e-40; probes confined to `size mod 2^32` bits,
+// or positions computed with a narrower modulus on one of the two paths, show at once).
+func bloomHuge(c *Ctx, props []string) {
+	size := uint(1<<32) + 777 + uint(c.rng.Intn(500))
+	ni, p := paramsForSize(size, uint(float64(size)*math.Ln2/7))
+	if p <= 0 || p >= 1 {
+		return
+	}
+	cfg := fmt.Sprintf("bloom(mem, n=%d, p=%g) -> %d bits", ni, p, size)
+	var f *gostatix.BloomFilter
+	var err error
+	if res := safely(func() { f, err = gostatix.NewMemBloomFilterWithParameters(ni, p) }); res.panicked || err != nil || f == nil {
+		c.note("bloomHuge: could not build " + cfg)
+		return
+	}
+	c.rep.Cases++
+	c.op("bloom.huge")
+	if uint64(f.GetCap()) < 1<<32 {
+		c.note(fmt.Sprintf("bloomHuge: %s has only %d bits", cfg, f.GetCap()))
+		return
+	}
+	const n = 300
+	for i := 0; i < n; i++ {
+		f.Insert([]byte(fmt.Sprintf("huge-in-%d-%d", c.seed, i)))
+	}
+	lost, fp := 0, 0
+	for i := 0; i < n; i++ {
+		if !f.Lookup([]byte(fmt.Sprintf("huge-in-%d-%d", c.seed, i))) {
+			lost++
+		}
+		if f.Lookup([]byte(fmt.Sprintf("huge-out-%d-%d", c.seed, i))) {
+			fp++
+		}
+	}
+	if lost > 0 {
+		c.fail(append([]string{"C01"}, props...), "bloom-false-negative", fmt.Sprintf("%s (%d hashes): %d of %d inserted elements are reported absent", cfg, f.GetNumHashes(), lost, n), cfg)
+	}
+	if fp > 0 {
+		c.fail(append([]string{"C15"}, props...), "bloom-huge-false-positives", fmt.Sprintf("%s (%d hashes): after %d insertions %d of %d never-inserted elements are reported present (the budget allows practically none at this load)", cfg, f.GetNumHashes(), n, fp, n), cfg)
+	}
+	f = nil
+	runtime.GC()
+	debug.FreeOSMemory()
 }
 
 // eqU64sub: are all of the given bits set in the filter?
